@@ -216,6 +216,8 @@ def common(rng, g, cfg, a, allow_freq=True):
             step = freq_td(g['freq'])
             m = int(round(freq_td(f) / step))
             k0 = rng.randint(-(m - 1), max(0, T - m))
+            if rng.random() < cfg.get('p_coarse_early', 0.25):
+                k0 -= m * rng.randint(1, 2)          # running since one or two whole coarse steps before the horizon
             q = rng.randint(1, max(1, (T - k0) // m + 1))
             s0 = pts[0] + k0 * step
             e0 = s0 + q * m * step
